@@ -6,10 +6,12 @@
     C16_tokens, C16_tokens_conv, C16_tokens_fail   token stream  <-> string serialisation
     C16_pretty, C16_pretty_conv                    pretty token stream <-> pretty string
     C16_write, C16_write_default, C16_to_string    `Write` entry points = string entry points
+    C16_xml_string, C16_xml_string_conv            full parameter set: prolog ++ (pretty) tokens
     C16_events_*                                   structure of the output-event stream
 -/
 import XotModel.Lemmas.Output
 import XotModel.Lemmas.Events
+import XotModel.Lemmas.XmlDeclRest
 
 namespace XotModel.Props
 open XotModel XotModel.Gen
@@ -151,6 +153,78 @@ theorem C16_to_string (env : Env) (t : Tree) (start : Path) :
     toXmlString env t start = serializeXmlString env {} t start := by
   unfold toXmlString serializeXmlString serializeXmlStringWith serializeString serializeStringWith
   rw [C16_write_default]
+
+/-- The body of `serialize_xml_string`: without declaration and doctype it is the pretty string
+    when indentation is requested, else the plain string, under the token parameters. -/
+theorem C16_xml_string_body (esc : Escapers) (env : Env) (p : XmlParams) (t : Tree) (start : Path) :
+    serializeXmlStringWith esc env p.body t start =
+      (match p.indentation with
+       | some sup => serializePrettyWith esc env p.tokenParams sup t start
+       | none => serializeStringWith esc env p.tokenParams t start) := by
+  unfold serializeXmlStringWith
+  rw [body_write]
+  cases p.indentation <;> rfl
+
+/-- Full parameter set (declaration, doctype, indentation, CDATA elements, unescaped_gt): a
+    successful `serialize_xml_string` is the declaration bytes, the doctype bytes and then the
+    token stream of `Xot::pretty_tokens` (indentation on; fields applied) resp. `Xot::tokens`
+    (indentation off) under the same token parameters. -/
+theorem C16_xml_string (esc : Escapers) (env : Env) (p : XmlParams) (t : Tree) (start : Path) (s : Str)
+    (h : serializeXmlStringWith esc env p t start = .ok s) :
+    ∃ dt, DoctypeWritten env p t start dt ∧
+      (match p.indentation with
+       | some sup => ∃ ks, prettyTokensWith esc env p.tokenParams sup t start = .ok ks ∧
+           s = p.declBytes ++ dt ++ ks.flatMap (fun k =>
+             (if k.2.2.indentation > 0 then (List.replicate (k.2.2.indentation * 2) [' ']).flatten else [])
+               ++ (if k.2.2.space then [' '] else []) ++ k.2.2.text
+               ++ (if k.2.2.newline then ['\n'] else []))
+       | none => ∃ ks, tokensWith esc env p.tokenParams t start = .ok ks ∧
+           s = p.declBytes ++ dt ++
+             ks.flatMap (fun k => (if k.2.2.space then [' '] else []) ++ k.2.2.text)) := by
+  obtain ⟨dt, body, hdt, hb, hs⟩ := xmlString_split esc env p t start s h
+  refine ⟨dt, hdt, ?_⟩
+  rw [C16_xml_string_body] at hb
+  cases hi : p.indentation with
+  | some sup =>
+    simp only [hi] at hb ⊢
+    obtain ⟨ks, hk⟩ := C16_pretty_conv esc env p.tokenParams sup t start body hb
+    refine ⟨ks, hk, ?_⟩
+    rw [C16_pretty esc env p.tokenParams sup t start ks hk] at hb
+    cases hb
+    exact hs
+  | none =>
+    simp only [hi] at hb ⊢
+    obtain ⟨ks, hk, hbody⟩ := C16_tokens_conv esc env p.tokenParams t start body hb
+    exact ⟨ks, hk, by rw [hs, hbody]⟩
+
+/-- Conversely: whenever the doctype block succeeds (or no doctype is requested) and the token
+    stream exists, `serialize_xml_string` returns exactly prolog ++ rendered tokens. -/
+theorem C16_xml_string_conv (esc : Escapers) (env : Env) (p : XmlParams) (t : Tree) (start : Path)
+    (dt : Str) (hdt : DoctypeWritten env p t start dt) :
+    (∀ sup ks, p.indentation = some sup → prettyTokensWith esc env p.tokenParams sup t start = .ok ks →
+      serializeXmlStringWith esc env p t start = .ok (p.declBytes ++ dt ++ ks.flatMap (fun k =>
+        (if k.2.2.indentation > 0 then (List.replicate (k.2.2.indentation * 2) [' ']).flatten else [])
+          ++ (if k.2.2.space then [' '] else []) ++ k.2.2.text
+          ++ (if k.2.2.newline then ['\n'] else [])))) ∧
+    (∀ ks, p.indentation = none → tokensWith esc env p.tokenParams t start = .ok ks →
+      serializeXmlStringWith esc env p t start = .ok (p.declBytes ++ dt ++
+        ks.flatMap (fun k => (if k.2.2.space then [' '] else []) ++ k.2.2.text))) := by
+  constructor
+  · intro sup ks hi hk
+    apply xmlString_join esc env p t start dt _ hdt
+    rw [C16_xml_string_body, hi]
+    exact C16_pretty esc env p.tokenParams sup t start ks hk
+  · intro ks hi hk
+    apply xmlString_join esc env p t start dt _ hdt
+    rw [C16_xml_string_body, hi]
+    exact C16_tokens esc env p.tokenParams t start ks hk
+
+/-- Non-vacuity: declaration + doctype + indentation on `<d><a/></d>` serialised from the document
+    (the empty environment spells every name as the empty string). -/
+example :
+    (serializeXmlString {} { indentation := some [], declaration := some {}, doctype := some (.sys ['s']) }
+      (.node .document [.node (.element 5) [.node (.element 2) []]]) []).okValue?.map String.ofList
+    = some "<?xml version=\"1.0\"?>\n<!DOCTYPE  SYSTEM \"s\">\n<>\n  </>\n</>\n" := by decide
 
 /-! ### The output-event stream -/
 
